@@ -97,14 +97,64 @@ def _options(rng, geom, level=None, expert=None, want_skip=True, bits=None):
     return toks, info
 
 
+def make_enc_case(rng, geom, toks, tags=()):
+    """`enc` on the real encoder, `kdattrenc` on the Lean model of PointCloudKdTreeEncoder / KdTreeAttributesEncoder
+    (lean/DracoModel/KdEncoder.lean): the model must reproduce the C++ stream byte for byte; inside the domain of
+    `pointcloud_kd_roundtrip` the driver also evaluates the theorem's conclusion on the model's stream (`rt-ok`)."""
+    from vlib.engine import Case
+    from . import seqenc_cases
+    t = [x for x in toks if not x.startswith("skip=") and not x.startswith("track=")]
+    if rng.random() < 0.15:
+        t.append("meta=" + seqenc_cases.rand_meta(rng, geom))
+    gtext = geom.to_text()
+    op = "enc " + " ".join(t) + " -- " + gtext
+
+    def model(hout):
+        if hout is None or not hout.startswith("ok "):
+            return None
+        hx = hout.split()[1]
+        b = bytes.fromhex(hx[:24])
+        if len(b) < 9 or b[7] != 0 or b[8] != 1:
+            return None     # not a kd-tree point cloud stream
+        return "kdattrenc " + " ".join(t) + f" hex={hx} -- " + gtext
+
+    def expect(hout, mout, case):
+        if mout is None or not hout.startswith("ok "):
+            return None
+        hx = hout.split()[1]
+        mp = mout.split()
+        if mp[0] != "ok":
+            return f"the kd-tree encoder model fails ({mout[:60]}) where the implementation produced a stream for `{case.op[:300]}`"
+        if mp[1] != hx:
+            k = next((i for i in range(0, min(len(hx), len(mp[1])), 2) if hx[i:i + 2] != mp[1][i:i + 2]), min(len(hx), len(mp[1])))
+            return (f"kd-tree encoder model and implementation differ at byte {k // 2} (impl {len(hx) // 2} bytes, model {len(mp[1]) // 2}): "
+                    f"impl …{hx[max(0, k - 8):k + 16]} model …{mp[1][max(0, k - 8):k + 16]} for `{case.op[:300]}`")
+        if len(mp) >= 4 and mp[3] == "dom-ok" and mp[2] != "rt-ok":
+            return f"model decoder on the model's kd-tree stream does not return a point permutation of `expectedKd g opts` ({mp[2]}) inside the theorem's domain for `{case.op[:300]}`"
+        return None
+
+    def mtag(mout):
+        if mout is None:
+            return "kdattrenc:not-kd-or-failed"
+        mp = mout.split()
+        return "kdattrenc:" + (mp[0] if mp else "?") + (":" + mp[3] if len(mp) > 3 else "")
+
+    c = Case(op, model=model, expect=expect, tags=("kdattrenc",) + tuple(tags))
+    c.mtag = mtag
+    if geom.num_points == 0:
+        c.sig_override = "empty-geometry"
+    return c
+
+
 def _case(rng, geom, checks, fam, **kw):
+    """-> [end-to-end decode case, encoder-model tie case] for one geometry and option set"""
     toks, info = _options(rng, geom, **kw)
     lvl = [t for t in toks if t.startswith("speed=")][0]
-    c = e2e.make_case(geom, toks, info, checks, tags=("pc", "kd", "kdfam:" + fam,
-                                                     "kdlevel:" + str(min(10 - max(int(x) for x in lvl[6:].split(",")), 6)),
-                                                     "expert" if info["expert"] else "encoder"))
+    tags = ("pc", "kd", "kdfam:" + fam, "kdlevel:" + str(min(10 - max(int(x) for x in lvl[6:].split(",")), 6)),
+            "expert" if info["expert"] else "encoder")
+    c = e2e.make_case(geom, toks, info, checks, tags=tags)
     c.mtag = e2e.model_support_tag
-    return c
+    return [c, make_enc_case(rng, geom, toks, tags=tags[2:])]
 
 
 def _geom(rng, specs, n, style=None, mapped_prob=0.2):
@@ -121,24 +171,24 @@ def kd_cases(rng, tier, checks=frozenset({"rt", "valid", "consumed", "corr"})):
     for level in range(7):
         for n in [1, 2, 3, 4, 9, 63, 64, 65, rng.randint(100, big)] + ([rng.randint(66, big) for _ in range(4)] if thorough else []):
             specs = _specs_for_dim(rng, rng.randint(1, 9))
-            cases.append(_case(rng, _geom(rng, specs, n), checks, "levels", level=level))
+            cases.extend(_case(rng, _geom(rng, specs, n), checks, "levels", level=level))
     # 2. total dimension 1..20 (level 6 is replaced by 5 beyond 15 dimensions)
     for dim in list(range(1, 21)) + ([15, 16, 17, 24] if thorough else []):
         for level in ([6, rng.randint(0, 5)] if not thorough else [6, 5, rng.randint(0, 4)]):
             n = rng.choice([3, 17, 64, 80, 150])
-            cases.append(_case(rng, _geom(rng, _specs_for_dim(rng, dim), n), checks, "dims", level=level))
+            cases.extend(_case(rng, _geom(rng, _specs_for_dim(rng, dim), n), checks, "dims", level=level))
     # 3. every integer type alone, values over the whole range / at the limits
     for dt in INT_TYPES:
         for style in ["bounds", "full", "small"] + (["mid"] if thorough else []):
             nc = rng.randint(1, 4)
             n = rng.choice([2, 5, 40, 130])
             g = _geom(rng, [(G.GENERIC, DT[dt], nc, False, rng.randint(0, 9))], n, style=style, mapped_prob=0.1)
-            cases.append(_case(rng, g, checks, "types"))
+            cases.extend(_case(rng, g, checks, "types"))
         lo, hi = LIMITS[DT[dt]]
         for rows in ([[lo], [hi]], [[hi], [lo], [hi], [lo], [0 if lo < 0 else 1]], [[lo, hi], [hi, lo], [lo, lo]],
                      [[hi, hi, hi]] * 3, [[lo]], [[hi]]):
             g = G.Geom(False, len(rows), [], [_attr(rng, G.GENERIC, DT[dt], len(rows[0]), False, 3, len(rows), rows=rows)])
-            cases.append(_case(rng, g, checks, "limits"))
+            cases.extend(_case(rng, g, checks, "limits"))
     # 4. float32 with every number of quantization bits
     for bits in range(1, 31):
         nc = rng.choice([1, 2, 3, 3, 4])
@@ -147,7 +197,7 @@ def kd_cases(rng, tier, checks=frozenset({"rt", "valid", "consumed", "corr"})):
         specs = [(t, DT["f32"], nc, False, 0)]
         if rng.random() < 0.4:
             specs.append((G.GENERIC, DT[rng.choice(INT_TYPES)], rng.randint(1, 3), False, 1))
-        cases.append(_case(rng, _geom(rng, specs, n), checks, "floatbits", bits=bits))
+        cases.extend(_case(rng, _geom(rng, specs, n), checks, "floatbits", bits=bits))
     # 5. duplicates, constant clouds, all-zero values (bit_length 0)
     for k in range(14 if not thorough else 40):
         specs = _specs_for_dim(rng, rng.randint(1, 6))
@@ -165,13 +215,13 @@ def kd_cases(rng, tier, checks=frozenset({"rt", "valid", "consumed", "corr"})):
             else:
                 vals = b"".join(pool[stride * j:stride * (j + 1)] for j in (rng.randrange(pool_n) for _ in range(n)))
                 atts.append(G.Attr(t, d, c, nz, uid, n, None, vals))
-        cases.append(_case(rng, G.Geom(False, n, [], atts), checks, "dups:" + kind))
+        cases.extend(_case(rng, G.Geom(False, n, [], atts), checks, "dups:" + kind))
     # 6. point counts around powers of two
     ks = range(1, 10) if not thorough else range(1, 12)
     for k in ks:
         for n in (2 ** k - 1, 2 ** k, 2 ** k + 1):
             specs = _specs_for_dim(rng, rng.randint(1, 4))
-            cases.append(_case(rng, _geom(rng, specs, n, mapped_prob=0.0), checks, "pow2"))
+            cases.extend(_case(rng, _geom(rng, specs, n, mapped_prob=0.0), checks, "pow2"))
     # 7. one coordinate axis carrying all the information (deep one-sided trees), dense small grids
     for k in range(8 if not thorough else 24):
         n = rng.choice([5, 64, 90, 200])
@@ -182,7 +232,7 @@ def kd_cases(rng, tier, checks=frozenset({"rt", "valid", "consumed", "corr"})):
         else:
             rows = [[rng.randint(0, 3), rng.randint(0, 3)] for _ in range(n)]
         g = G.Geom(False, n, [], [_attr(rng, G.GENERIC, DT[d], 2, False, 0, n, rows=rows)])
-        cases.append(_case(rng, g, checks, "shapes"))
+        cases.extend(_case(rng, g, checks, "shapes"))
     # 8. several quantized float attributes of distinct types, the later ones with fewer components; the
     #    transform of an earlier type is skipped but not that of a later one
     for k in range(10 if not thorough else 30):
@@ -199,6 +249,7 @@ def kd_cases(rng, tier, checks=frozenset({"rt", "valid", "consumed", "corr"})):
         c = e2e.make_case(g, toks, info, checks, tags=("pc", "kd", "kdfam:floats", "expert" if info["expert"] else "encoder"))
         c.mtag = e2e.model_support_tag
         cases.append(c)
+        cases.append(make_enc_case(rng, g, toks, tags=("kdfam:floats",)))
     # 9. a tree node holding exactly 64 points (the boundary of the explicit axis coding of level 6) below the root:
     #    64 points on one side of the first split on axis 0, more than 64 on the other, other axes spread out
     for k in range(8 if not thorough else 24):
@@ -215,7 +266,7 @@ def kd_cases(rng, tier, checks=frozenset({"rt", "valid", "consumed", "corr"})):
             rows.append([x] + [rng.randrange(0, top // 2) + (top // 2) * ((i + j) % 2) for j in range(dim - 1)])
         rng.shuffle(rows)
         g = G.Geom(False, len(rows), [], [_attr(rng, G.GENERIC, DT[d], dim, False, 0, len(rows), rows=rows)])
-        cases.append(_case(rng, g, checks, "node64", level=6))
+        cases.extend(_case(rng, g, checks, "node64", level=6))
     return cases
 
 
